@@ -209,7 +209,16 @@ impl TypeCheckable for PreObjective {
         context: &mut TypeCheckerContext,
         fn_context: &FunctionContext,
     ) -> Result<(), TransformError> {
-        self.rhs.type_check(context, fn_context)
+        self.rhs.type_check(context, fn_context)?;
+        let rhs_type = self.rhs.get_type(context, fn_context);
+        if !rhs_type.is_numeric() && !rhs_type.is_any() {
+            return Err(TransformError::Other(format!(
+                "Expected objective of type \"Number\", got \"{}\"",
+                rhs_type
+            ))
+            .add_span(self.rhs.span()));
+        }
+        Ok(())
     }
     fn populate_token_type_map(
         &self,
